@@ -3,6 +3,7 @@ package checks
 import (
 	"bytes"
 	"fmt"
+	"strings"
 	"testing"
 
 	"github.com/amzn/ion-go/ion"
@@ -243,6 +244,33 @@ func btoi(b bool) int {
 
 func TestC04(t *testing.T) {
 	p := Prop[C04Case]{ID: "C04", Sub: "independent-decode", Gen: genC04, Run: runC04, Quick: 20000, Thorough: 400000}
+	// nested containers and annotation wrappers whose content is around 128 and
+	// 16384 bytes (where the length field of the node grows by a byte)
+	Enumerate(t, p, "nested-content-lengths", func(yield func(C04Case) bool) {
+		var ns []int
+		for n := 105; n <= 135; n++ {
+			ns = append(ns, n)
+		}
+		for n := 16370; n <= 16390; n++ {
+			ns = append(ns, n)
+		}
+		for _, n := range ns {
+			str := model.StrV(strings.Repeat("x", n))
+			shapes := [][]model.Value{
+				{model.ListV(model.ListV(str), model.Int64V(1))},
+				{model.ListV(str.WithAnn(model.S("a")), model.Int64V(1))},
+				{model.StructV(model.Field{Name: model.S("f"), Val: model.SexpV(str, model.Int64V(2))}, model.Field{Name: model.S("g"), Val: model.Int64V(1)})},
+				{model.ListV(model.StructV(model.Field{Name: model.S("f"), Val: model.BlobV(bytes.Repeat([]byte{7}, n))})).WithAnn(model.S("b"))},
+			}
+			for _, sh := range shapes {
+				for _, mode := range []int{2, 3} {
+					if !yield(C04Case{Mode: mode, Batches: [][]model.Value{sh}}) {
+						return
+					}
+				}
+			}
+		}
+	})
 	// many distinct symbols in one stream: symbol IDs around 128, 256 (and 16384 in
 	// thorough) as values, field names and annotations
 	Enumerate(t, p, "many-symbols", func(yield func(C04Case) bool) {
